@@ -13,13 +13,19 @@ REPO = os.environ.get('VERIF_REPO', '/repo')
 sys.path.insert(0, VERIF)
 
 
+# concrete sizing inputs that share commands with one another (hits, near misses, repeats): a parse must not depend on
+# which of them was parsed before
+FIXED_INPUTS = ['$\\left\\{a\\right\\}$', '$x\\left\\{b\\right\\}y$', '\\left\\langle a\\right\\rangle', '$\\left\\langle b\\right\\rangle$',
+                '\\right\\|\\right\\}', '\\big\\{\\big\\}', '\\left\\lvert x\\right\\rvert', '$\\Bigg(\\Bigg)\\Bigg($', '\\cup\\infty{x}\\cup']
+
+
 def jobs(tier):
     js = []
     for pi in range(6):
         js.append(('c17_size', (pi, 2), 2))
         js.append(('c17_size_math', (pi, 2), 2))
     js.append(('c17_free', (3,), 3))
-    for text in overlap_inputs():
+    for text in overlap_inputs() + FIXED_INPUTS:
         js.append(('c17_const', (text,), 0))
     from vt import cover
     docs, _ = cover.cover_docs('quick', 0)
